@@ -49,9 +49,20 @@ var c18services = [][2]string{
 
 var c18once sync.Once
 
+// c18reverse: register the services in the opposite order. The second process does so: which
+// services a binary registers first is no part of a configuration file, so the identities read -
+// and the roster id - must not depend on it.
+var c18reverse bool
+
 func c18setup() {
 	c18once.Do(func() {
-		for _, e := range c18services {
+		order := append([][2]string{}, c18services...)
+		if c18reverse {
+			for i, j := 0, len(order)-1; i < j; i, j = i+1, j-1 {
+				order[i], order[j] = order[j], order[i]
+			}
+		}
+		for _, e := range order {
 			var err error
 			fn := func(c *onet.Context) (onet.Service, error) { return nil, fmt.Errorf("verification stub") }
 			if e[1] == "" {
@@ -182,6 +193,7 @@ func c18readPrivate(file string) (dump string, hc *app.CothorityConfig) {
 
 func init() {
 	h.Register("c18child", func(c *h.Ctx) error {
+		c18reverse = true
 		c18setup()
 		d := ""
 		if strings.HasSuffix(c.Replay, ".private.toml") {
@@ -372,7 +384,7 @@ func c18exec(c *h.Ctx, cs *h.Case) {
 			if tk[3] == "1" {
 				c18ensure(file, text)
 				if d := c18child(c, file); d != first {
-					cs.Fail("process-disagree", fmt.Sprintf("a second process reads the same file differently:\n%s\n%s", first, d))
+					cs.Fail("process-disagree", fmt.Sprintf("a second process (same services, registered in the opposite order) reads the same file differently:\n%s\n%s", first, d))
 				}
 			}
 			os.Remove(file)
@@ -457,7 +469,7 @@ func c18exec(c *h.Ctx, cs *h.Case) {
 			if tk[12] == "1" {
 				c18ensure(file, text)
 				if d := c18child(c, file); d != first {
-					cs.Fail("process-disagree", fmt.Sprintf("a second process reads the same private configuration differently:\n%s\n%s", first, d))
+					cs.Fail("process-disagree", fmt.Sprintf("a second process (same services, registered in the opposite order) reads the same private configuration differently:\n%s\n%s", first, d))
 				}
 			}
 			os.Remove(file)
